@@ -34,6 +34,21 @@ def _stream_trees(c, n, model):
     return out
 
 
+def _twins(c, model):
+    """Two texts of one graph that differ only in where a re-entrant edge is written (under the parent, or inverted under
+    the child): same top, same triples in the same order, same nodes opened at the same triples - only the places where
+    nodes are closed differ.  Anything the tool remembers about one must not be applied to the other."""
+    roles, concepts = (AMR_ROLES, AMR_CONCEPTS) if model == 'amr' else (MINI_ROLES, MINI_CONCEPTS)
+    plain = [r for r in roles if not r.endswith('-of')]
+    r1, r3 = c.rng.choice(plain), c.rng.choice(plain)
+    r2 = ':mod' if ':mod' in plain and c.rng.random() < 0.6 else c.rng.choice(plain)
+    c1, c2, c3 = (c.rng.choice(concepts) for _ in range(3))
+    inner = ' %s (c / %s)' % (r3, c3) if c.rng.random() < 0.5 else ''
+    a = '(a / %s %s (b / %s%s) %s b)' % (c1, r1, c2, inner, r2)
+    b = '(a / %s %s (b / %s%s %s-of a))' % (c1, r1, c2, inner, r2)
+    return [a, b] if c.rng.random() < 0.5 else [b, a]
+
+
 def _stream(c, texts):
     sep = c.rng.choice(['\n\n', '\n\n', '\n', '\n\n\n', ' '])
     return sep.join(texts) + c.rng.choice(['', '\n'])
@@ -64,14 +79,25 @@ def check_C20(c):
         inputs = [_stream(c, c.rng.sample(pools[key], c.rng.randint(0 if nfiles > 1 else 1, 3))) for _ in range(nfiles)]
         if c.rng.random() < 0.12:
             inputs[0] = '# ::id 1\n(a / alpha :mod-of -)\n\n' + inputs[0]        # inverted attribute with a reifiable deinversion
+        iso = c.rng.random() < 0.08
+        if c.rng.random() < 0.15:
+            iso = True
+            tw = _twins(c, key)
+            if nfiles == 2 and c.rng.random() < 0.5:                           # one twin per input file
+                inputs = [_stream(c, [tw[0]] + ([inputs[0]] if inputs[0].strip() else [])), _stream(c, [tw[1]])]
+            else:
+                k = c.rng.randrange(nfiles)
+                inputs[k] = _stream(c, tw + ([inputs[k]] if inputs[k].strip() else []))
         stdin = nfiles == 1 and c.rng.random() < 0.4
-        jobs.append(('tr_cli', dict(plan=plan, inputs=inputs, model=model, stdin=stdin, subproc=c.rng.random() < 0.04)))
+        jobs.append(('tr_cli', dict(plan=plan, inputs=inputs, model=model, stdin=stdin, subproc=c.rng.random() < 0.04, isolated=iso)))
     traces = pmake(jobs, procs=12, chunksize=8)
     c.judge('J_Cli', traces, 'cli', nontrivial=lambda t: len(t['in_graphs']) >= 1 and len(t['plan']['args']) >= 1)
     c.rule = ('option sets enumerated by TLC (MC_CliOpts: model x 5 normalisation switches x reconfigure key x rearrange key list x '
               'make-variables x indent x compact x triples x check), a seeded sample of %d replayed plus the interactions named in the '
               'property; inputs: streams of 0-3 random well-formed graphs with metadata per input over the model inventory, 1-2 files '
-              'or stdin, separators blank line / newline / space; 4%% through a real subprocess; non-trivial = at least one graph and '
+              'or stdin, separators blank line / newline / space; 15%% of the runs contain two layouts of one graph that differ only in '
+              'where nodes are closed; for these and 8%% of the others the reference pipeline runs in one fresh interpreter per graph; 4%% of '
+              'the tool runs through a real subprocess; non-trivial = at least one graph and '
               'one option' % len(sample))
     c.bounds = {'plans_exported': len(plans), 'plans_replayed': len(sample) + len(must)}
     c.assumptions += ['the stage semantics are the library functions (each covered by its own property); the specification contributes '
